@@ -6,7 +6,7 @@ P = os.path.join(ROOT, "coq/theories/Proofs")
 
 def statement(fname, lemma):
     src = open(os.path.join(P, fname + ".v")).read()
-    m = re.search(r"(?:Theorem|Lemma)\s+%s\b(.*?)\.\s*\nProof\." % re.escape(lemma), src, re.S)
+    m = re.search(r"(?:Theorem|Lemma)\s+%s(?![\w'])(.*?)\.\s*\nProof\." % re.escape(lemma), src, re.S)
     if not m:
         raise SystemExit("lemma %s not found in %s" % (lemma, fname))
     body = m.group(1).strip()
@@ -106,4 +106,117 @@ emit("C02", "(* Property C02 - create --project: hypergeometric down-sampling of
  ("iterator_enumerates_target", "ProjectP", "proj_iter_spec", "the per-site iterator visits the target index space in row-major order"),
  ("individuals_is_shape", "CreateSpecP", "build_reader_individuals", "--project-individuals i = --project-shape 2i+1"),
  ("weights_sum_to_one", "ProjectP", "project_value_sum_one", "each covered record has total weight one"),
+])
+
+IMP2 = "From Sfs Require Import Index ArrayM Scalar Spectrum Project Stat IndexP ArrayP MargP FoldP StatDefP StatInvP ViewP."
+
+emit("C06", "(* Property C06 - statistics equal their definitions on genotypes and the published estimators. *)", IMP2, [
+ ("histogram_lemma", "StatDefP", "hist_sum", "the spectrum produced by create is the histogram of per-site count vectors (C01); a weighted sum over cells is a sum over sites"),
+ ("pairs_differing", "StatDefP", "pairs_differing_count", "chromosome level: unordered pairs that differ = k (n - k)"),
+ ("cross_differing", "StatDefP", "cross_differing_count", "between two populations: differing pairs = k1 (n2 - k2) + (n1 - k1) k2"),
+ ("number_of_pairs", "StatDefP", "pairs_total", "C(n,2) pairs"),
+ ("sum_is_number_of_sites", "StatDefP", "sum_eq", "sum = number of sites"),
+ ("S_is_polymorphic_sites", "StatDefP", "S_eq", "S = number of polymorphic sites"),
+ ("pi_is_mean_pairwise_difference", "StatDefP", "pi_eq", "pi = sum over sites of differing pairs / number of pairs"),
+ ("pixy_is_between_population_difference", "StatDefP", "pixy_eq", "pi_xy = sum over sites of differing between-population pairs / (n1 n2)"),
+ ("f2_is_site_average", "StatDefP", "f2_eq", "f2 as printed (normalised) = site average of (p1 - p2)^2"),
+ ("f3_is_site_average", "StatDefP", "f3_eq", "f3 = site average of (p1 - p2)(p1 - p3)"),
+ ("f4_is_site_average", "StatDefP", "f4_eq", "f4 = site average of (p1 - p2)(p3 - p4)"),
+ ("fst_is_ratio_of_sums", "StatDefP", "fst_eq", "Hudson's Fst = ratio of summed per-site numerators and denominators"),
+ ("king_r0_r1_are_genotype_pair_ratios", "StatDefP", "king_r0_r1_eq", "R0, R1, KING = ratios of two-individual genotype-pair counts"),
+ ("harmonic_numbers", "StatDefP", "harmonic_is_a_n", "a_n = sum_{i<n} 1/i, b_n = sum_{i<n} 1/i^2"),
+ ("S_formula", "StatDefP", "S_formula", "S = sum of the interior entries"),
+ ("watterson", "StatDefP", "theta_w_formula", "Watterson (1975): theta_W = S / a_n"),
+ ("tajima_pi", "StatDefP", "pi_formula", "Tajima (1983): pi = sum_i i (n - i) xi_i / C(n,2)"),
+ ("tajima_d", "StatDefP", "tajima_d_formula", "Tajima (1989): D = (pi - S/a1) / sqrt(e1 S + e2 S (S - 1)), numerator and radicand"),
+ ("fu_li_d", "StatDefP", "fu_li_d_formula", "Fu and Li (1993): D = (S - a_n xi_1) / sqrt(u_D S + v_D S^2), numerator and radicand"),
+])
+
+emit("C14", "(* Property C14 - statistics are invariant under the transformations that must not matter. *)", IMP2, [
+ ("f3_from_f2", "StatInvP", "f3_as_f2", "f3(A;B,C) = (f2(AB) + f2(AC) - f2(BC)) / 2 on the two-population marginals"),
+ ("f4_from_f2", "StatInvP", "f4_as_f2", "f4(A,B;C,D) = (f2(AD) + f2(BC) - f2(AC) - f2(BD)) / 2"),
+ ("normalize_commutes_with_marginalize", "StatInvP", "normalize_sum_axis", "so the same holds for what `stat` prints"),
+ ("f3_from_f2_as_printed", "StatInvP", "f3_as_f2_calc", "the identity at the level of Statistic::calculate"),
+ ("fold_S", "StatInvP", "fold_S", "folding with fill 0 leaves S unchanged"),
+ ("fold_pi", "StatInvP", "fold_pi", "... pi"),
+ ("fold_theta", "StatInvP", "fold_theta", "... Watterson's theta"),
+ ("fold_tajima_d", "StatInvP", "fold_d_tajima", "... Tajima's D (numerator and radicand)"),
+ ("fold_pixy", "StatInvP", "fold_pixy", "... pi_xy"),
+ ("fold_f2", "StatInvP", "fold_f2", "... f2"),
+ ("fold_f3", "StatInvP", "fold_f3", "... f3"),
+ ("fold_f4", "StatInvP", "fold_f4", "... f4"),
+ ("fold_fst", "StatInvP", "fold_fst", "... Fst (numerator and denominator sums)"),
+ ("fold_king_r0_r1", "StatInvP", "fold_king_r0_r1", "... KING, R0, R1"),
+ ("fold_commutes_with_normalize", "StatInvP", "fold_normalize", "normalisation and folding commute"),
+ ("monomorphic_S", "StatInvP", "mono_S", "the two monomorphic entries do not matter: S"),
+ ("monomorphic_pi_theta_D", "StatInvP", "mono_pi_theta", "... pi, theta, D"),
+ ("monomorphic_pixy", "StatInvP", "mono_pixy", "... pi_xy"),
+ ("monomorphic_fst", "StatInvP", "mono_fst", "... Fst"),
+ ("monomorphic_king_r0_r1", "StatInvP", "mono_king_r0_r1", "... KING, R0, R1"),
+ ("swap_populations", "StatInvP", "transpose2_wf", "transposition = swapping the two populations"),
+ ("swap_f2", "StatInvP", "swap_f2", "f2 is symmetric"),
+ ("swap_fst", "StatInvP", "swap_fst", "Fst is symmetric"),
+ ("swap_pixy", "StatInvP", "swap_pixy", "pi_xy is symmetric"),
+ ("swap_king_r0_r1", "StatInvP", "swap_king_r0_r1", "KING, R0, R1 are symmetric"),
+ ("scale_invariant", "StatInvP", "scale_degree0", "f2, f3, f4, Fst, KING, R0, R1 unchanged by a positive factor"),
+ ("scale_linear", "StatInvP", "scale_degree1", "sum, S, pi, pi_xy, theta scale by the factor"),
+])
+
+emit("C13", "(* Property C13 - view = marginalize > project > mask > normalize, equal to chained single steps. *)", IMP2, [
+ ("view_compose", "ViewP", "view_compose", "any combination of options = chaining the single-option invocations in the documented order"),
+ ("view_identity", "ViewP", "view_identity", "no options: the input is reproduced"),
+ ("mask_exact", "ViewP", "mask_exact", "--mask-monomorphic zeroes exactly the all-zero and all-maximum entries"),
+ ("mask_shape", "ViewP", "mask_shape", "... and nothing else changes"),
+ ("normalize_sum_one", "ViewP", "normalize_sum_one", "--normalize: entries sum to one"),
+ ("normalize_ratios", "ViewP", "normalize_ratios", "... ratios preserved"),
+ ("normalize_entry", "ViewP", "normalize_entry", "... every entry divided by the total"),
+ ("marginalize_error_stops", "ViewP", "view_marg_error", "an error of a step is the error of the run"),
+ ("keep_is_remove", "ViewP", "view_keep_is_remove", "--marginalize-keep = --marginalize-remove of the complement"),
+])
+
+IMP3 = "From Sfs Require Import Index Npy Text NpyP TextP.\nClose Scope string_scope. Open Scope N_scope."
+
+def emit_n(pid, header, items, extra=""):
+    out = [header, IMP3, ""]
+    for name, fname, lemma, comment in items:
+        out.append("(* %s *)" % comment)
+        out.append("Theorem %s_%s : %s." % (pid, name, statement(fname, lemma)))
+        out.append("Proof. exact (@%s). Qed." % lemma)
+        out.append("Print Assumptions %s_%s." % (pid, name))
+        out.append("")
+    out.append(extra)
+    open(os.path.join(ROOT, "coq/theories/Properties/%s.v" % pid), "w").write("\n".join(out))
+
+emit_n("C07", "(* Property C07 - spectrum files round-trip through text and npy; the tool reads what it writes.\n   Values are 64-bit patterns; the std float formatting/parsing functions are modelled by executable stand-ins\n   (print_fixed, parse_f64) that are compared with Rust on every run. *)", [
+ ("npy_roundtrip", "NpyP", "npy_roundtrip", "npy: writing and reading back returns the same shape and bit-identical values (any 64-bit pattern: NaN payloads, infinities)"),
+ ("auto_detect_npy", "TextP", "detect_write_npy", "what is written as npy is detected as npy"),
+ ("auto_detect_text", "TextP", "detect_write_text", "what is written as text is detected as text"),
+ ("read_back_npy", "TextP", "read_spectrum_npy", "the auto-detecting reader reads back the npy output"),
+ ("text_shape_roundtrip", "TextP", "text_header_roundtrip", "text: the shape line round-trips"),
+ ("text_roundtrip_structure", "TextP", "text_roundtrip_struct", "text: reading back yields the shape and, value by value, the parse of what was printed"),
+ ("text_printed_digits", "TextP", "print_fixed_digits", "text: the printed digits of a finite value are those of round-half-even(value * 10^p)"),
+ ("text_half_unit", "TextP", "scaled_half_unit", "... which differs from value * 10^p by at most one half: the printed decimal is within half a unit of the p-th decimal"),
+ ("round_half_even", "TextP", "rne_div_bound", "the rounding used by both stand-ins is to nearest"),
+ ("text_special_printed", "TextP", "print_fixed_special", "NaN and infinities are printed as NaN / inf / -inf"),
+ ("text_special_parsed", "TextP", "parse_f64_special", "... and read back as NaN / inf / -inf"),
+ ("printed_values_are_tokens", "TextP", "print_fixed_nonempty_no_ws", "printed values are non-empty ASCII tokens without whitespace"),
+])
+
+emit_n("C15", "(* Property C15 - npy output conforms to NPY 1.0; reader of the numpy dtypes. *)", [
+ ("header_structure", "NpyP", "write_header_structure", "every shape: magic, version 1.0, little-endian u16 header length, dict, space padding, terminating newline; data starts at a multiple of 64"),
+ ("file_layout", "NpyP", "write_npy_layout", "then prod(shape) little-endian doubles in C order"),
+ ("dict_is_ascii", "NpyP", "fmt_dict_ascii", "the header dict is ASCII"),
+ ("dict_parses_to_f8_C_order_shape", "NpyP", "parse_dict_fmt_dict", "the header dict is the Python literal {'descr': '<f8', 'fortran_order': False, 'shape': (...)}: the reader's grammar parses it to exactly that"),
+ ("le_words", "NpyP", "le_word_le_bytes", "little-endian words decode to themselves"),
+ ("integers_exact_below_2_53", "NpyP", "f64_of_N_exact", "integer dtypes: values up to 2^53 are converted exactly"),
+ ("fortran_order_rejected", "NpyP", "npy_fortran_rejected_fixed", "Fortran-ordered files are rejected"),
+])
+
+emit_n("C16", "(* Property C16 - damaged spectrum files are rejected, never read as a different spectrum. *)", [
+ ("npy_prefix_rejected", "NpyP", "npy_prefix_rejected", "every strict prefix of a written npy file is rejected"),
+ ("npy_extension_rejected", "NpyP", "npy_extension_rejected", "every written npy file with extra trailing bytes is rejected"),
+ ("npy_count_must_match", "NpyP", "read_npy_count", "npy: accepted only when the number of values equals the product of the shape"),
+ ("text_count_must_match", "TextP", "read_text_count", "text: likewise"),
+ ("any_format_count_must_match", "TextP", "read_spectrum_count", "auto-detected input: likewise"),
+ ("short_input_has_no_format", "TextP", "detect_short", "inputs shorter than the magic have no format (error, not a panic)"),
 ])
